@@ -30,7 +30,9 @@
 (*        outf |-> "struct"|"tuple", extra |-> "T"|"F", hook |-> hookspec] *)
 (*     field = [n |-> name, t |-> T, d |-> default, kw |-> "T"|"F",        *)
 (*              ins |-> <<input names>>, out |-> output name,              *)
-(*              ex |-> "T"|"F" (excluded from output)]                     *)
+(*              ex |-> "T"|"F" (excluded from output),                     *)
+(*              init |-> "T"|"F" (F: never bound from data or arguments;   *)
+(*                        keeps its default)]                              *)
 (*     default = [k|->"nodef"] | [k|->"val", v |-> x] | [k|->"fac", v |-> x]*)
 (*     hookspec = [k|->"nohook"] | [k|->"rejectif", f |-> field, c |-> cond]*)
 (*         (a __post_init__ that raises when cond holds on the field)      *)
@@ -90,7 +92,7 @@ ScalarImg(tk, v) ==
     [] tk = "date"     -> [k |-> "date", s |-> Fact(v.s).date]
     [] tk = "time"     -> [k |-> "time", s |-> Fact(v.s).time]
     [] tk = "datetime" -> [k |-> "datetime", s |-> Fact(v.s).dt]
-    [] tk = "path"     -> [k |-> "path", s |-> v.s]
+    [] tk = "path"     -> [k |-> "path", s |-> Fact(v.s).path]
     [] tk = "pattern"  -> [k |-> "pat", s |-> v.s, b |-> "F"]
     [] tk = "patternb" -> [k |-> "pat", s |-> v.s, b |-> "T"]
 
@@ -145,13 +147,13 @@ CLenRange(hasmin, mn, hasmax, mx) ==
 
 -----------------------------------------------------------------------------
 (* dataclass helpers                                                        *)
-IsInit(f)       == TRUE
+IsInit(f)       == f.init = "T"
 HasDefault(f)   == f.d.k # "nodef"
-PosFields(C)    == SelectSeq(C.fs, LAMBDA f : f.kw = "F")
+PosFields(C)    == SelectSeq(C.fs, LAMBDA f : f.kw = "F" /\ IsInit(f))
 ReqCount(C)     == Len(SelectSeq(PosFields(C), LAMBDA f : ~HasDefault(f)))
 FieldIdx(C, key) ==  \* index of the field that the data key binds to, 0 if none
   IF key.k # "str" THEN 0
-  ELSE LET S == {i \in DOMAIN C.fs : \E j \in DOMAIN C.fs[i].ins : C.fs[i].ins[j] = key.s}
+  ELSE LET S == {i \in DOMAIN C.fs : IsInit(C.fs[i]) /\ \E j \in DOMAIN C.fs[i].ins : C.fs[i].ins[j] = key.s}
        IN IF S = {} THEN 0 ELSE CHOOSE i \in S : \A j \in S : i <= j
 FieldByName(C, n) == C.fs[CHOOSE i \in DOMAIN C.fs : C.fs[i].n = n]
 
@@ -163,7 +165,7 @@ BindMap(C, v) ==
       extra == {i \in DOMAIN v.ps : idx[i] = 0}
       dup   == \E i, j \in known : i < j /\ idx[i] = idx[j]
       bound == {idx[i] : i \in known}
-      missing == {j \in DOMAIN C.fs : j \notin bound /\ ~HasDefault(C.fs[j])}
+      missing == {j \in DOMAIN C.fs : j \notin bound /\ IsInit(C.fs[j]) /\ ~HasDefault(C.fs[j])}
   IN [idx |-> idx, known |-> known, extra |-> extra, dup |-> dup, bound |-> bound, missing |-> missing]
 
 -----------------------------------------------------------------------------
@@ -246,9 +248,11 @@ Verdict(T, v) ==
          ELSE IF \E i \in DOMAIN T.vs : SameKindEq(T.vs[i], v) THEN "A"
          ELSE IF \E i \in DOMAIN T.vs : PyEq(T.vs[i], v) THEN "D" ELSE "R"
     [] T.k = "enum" ->
+         \* the value must be of the kind of some member value (C02: a float is never an int);
+         \* only bool/int, which the int column leaves open, stay don't-care
          IF ~IsAtom(v) THEN "R"
          ELSE IF \E i \in DOMAIN T.vs : SameKindEq(T.vs[i], v) THEN "A"
-         ELSE IF \E i \in DOMAIN T.vs : PyEq(T.vs[i], v) THEN "D" ELSE "R"
+         ELSE IF \E i \in DOMAIN T.vs : PyEq(T.vs[i], v) /\ {T.vs[i].k, v.k} = {"bool", "int"} THEN "D" ELSE "R"
     [] T.k = "ann" ->
          LET r == Verdict(T.t, v) IN
          IF r # "A" THEN r
@@ -301,9 +305,9 @@ ClsImg(C, v) ==
        [fv |-> FieldVals(C, v, b), set |-> {C.fs[j].n : j \in b.bound}]
   ELSE LET pos == PosFields(C)
            n == Len(v.xs)
-           pidx(j) == \* position of field j among the positional fields, 0 if keyword-only
-              IF C.fs[j].kw = "T" THEN 0
-              ELSE Cardinality({i \in 1..j : C.fs[i].kw = "F"}) IN
+           pidx(j) == \* position of field j among the positional fields, 0 if keyword-only / not init
+              IF C.fs[j].kw = "T" \/ ~IsInit(C.fs[j]) THEN 0
+              ELSE Cardinality({i \in 1..j : C.fs[i].kw = "F" /\ IsInit(C.fs[i])}) IN
        [fv |-> [j \in DOMAIN C.fs |->
                   IF pidx(j) # 0 /\ pidx(j) <= n THEN Img(C.fs[j].t, v.xs[pidx(j)]) ELSE C.fs[j].d.v],
         set |-> {C.fs[j].n : j \in {i \in DOMAIN C.fs : pidx(i) # 0 /\ pidx(i) <= n}}]
@@ -352,9 +356,9 @@ SerOK(T, x, d) ==
     [] T.k = "any"      -> d = x
     [] T.k = "decimal"  -> d.k = "str" /\ x.k = "dec" /\ Fact(d.s).dec = [q |-> x.q, sp |-> x.sp]
     [] T.k = "fraction" -> d.k = "str" /\ x.k = "frac" /\ Fact(d.s).fr = x.q
-    [] T.k \in {"date", "time", "datetime", "path"} -> d.k = "str" /\ d.s = x.s
-    [] T.k = "pattern"  -> d.k = "str" /\ d.s = x.s
-    [] T.k = "patternb" -> d.k = "bytes" /\ d.s = x.s
+    [] T.k \in {"date", "time", "datetime", "path"} -> x.k = T.k /\ d.k = "str" /\ d.s = x.s
+    [] T.k = "pattern"  -> x.k = "pat" /\ d.k = "str" /\ d.s = x.s
+    [] T.k = "patternb" -> x.k = "pat" /\ d.k = "bytes" /\ d.s = x.s
     [] T.k \in {"list", "tuplevar", "deque"} ->
          /\ d.k = "seq" /\ x.k = "seq"
          /\ d.f = (IF T.k = "tuplevar" THEN "tuple" ELSE "list")
@@ -378,9 +382,10 @@ SerOK(T, x, d) ==
          LET ftype(n) == T.fs[CHOOSE j \in DOMAIN T.fs : T.fs[j][1] = n][2] IN
          /\ d.k = "map" /\ x.k = "map" /\ d.f = "dict"
          /\ Len(d.ps) = Len(x.ps)
+         /\ \A i \in DOMAIN x.ps : x.ps[i][1].k = "str" /\ \E j \in DOMAIN T.fs : T.fs[j][1] = x.ps[i][1].s
          /\ \A i \in DOMAIN x.ps : d.ps[i][1] = x.ps[i][1] /\ SerOK(ftype(x.ps[i][1].s), x.ps[i][2], d.ps[i][2])
     [] T.k = "union" -> \E i \in DOMAIN T.alts : SerOK(T.alts[i], x, d)
-    [] T.k = "enum"  -> x.k = "enum" /\ d = T.vs[x.i]
+    [] T.k = "enum"  -> x.k = "enum" /\ x.e = T.name /\ x.i \in DOMAIN T.vs /\ d = T.vs[x.i]
     [] T.k = "ann"   -> SerOK(T.t, x, d)
     [] T.k = "sub"   -> x.k = "sub" /\ SerOK(T.base, x.x, d)
     [] T.k = "tvar"  ->
@@ -400,7 +405,8 @@ SerOK(T, x, d) ==
     [] T.k = "cls" ->
          LET outs == SelectSeq(T.fs, LAMBDA f : f.ex = "F")
              xval(n) == x.fs[CHOOSE j \in DOMAIN x.fs : x.fs[j][1] = n][2] IN
-         /\ x.k = "inst"
+         /\ x.k = "inst" /\ x.c = T.name
+         /\ \A i \in DOMAIN outs : \E j \in DOMAIN x.fs : x.fs[j][1] = outs[i].n
          /\ IF T.outf = "struct"
             THEN /\ d.k = "map" /\ d.f = "dict" /\ Len(d.ps) = Len(outs)
                  /\ \A i \in DOMAIN outs : d.ps[i][1] = MkStr(outs[i].out) /\ SerOK(outs[i].t, xval(outs[i].n), d.ps[i][2])
